@@ -44,7 +44,7 @@ def run(pid):
             rep.add_model(r)
             scens, g, nexp = vlib.gen_scenarios("MCStoreConc", "MCStoreConc", consts, edges=True, key=lambda s: s["schedule"])
             full = len(scens)
-            cap = None if thorough else 1500
+            cap = None if thorough else 1100
             if cap and len(scens) > cap:
                 scens = rng.sample(scens, cap)
             for s in scens:
@@ -136,7 +136,7 @@ def run(pid):
     rep.cov["exhaustive"] = thorough
     rep.cov["distinct_nontrivial"] = total
     rep.cov["rule"] = ("one schedule per reachable TRANSITION of StoreConc.tla: programs = every assignment of one call (Put/Get/Remove over keys A,B that share bucket and stored prefix byte, 2 values) to 2 threads "
-                       "x initial contents {},{A},{A,B} x immutable on/off, interleaved with the 6 steps of one commit; the quick tier replays a seeded sample of 1500 schedules per configuration, the thorough tier all; "
+                       "x initial contents {},{A},{A,B} x immutable on/off, interleaved with the 6 steps of one commit; the quick tier replays a seeded sample of 1100 schedules per configuration, the thorough tier all; "
                        "programs that fire the known finding (Put-update overlapping Remove of the same key) are guarded out of the bulk and run as a pinned witness")
     rep.assumptions = ["TLC + Json module", "yield points sit between the critical sections named in StoreConc.tla; a race strictly inside one is not reachable by schedule replay",
                        "histories of <= 3 calls, so TLC can enumerate all linearizations"]
